@@ -113,6 +113,7 @@ structure Agent where
   icmp : Table := {}
   peers : List (Nat × Nat) := []   -- connected peer → next stream id its allocator hands out
   cleanAll : Bool := true          -- `cleanupRelaysForPeer` also cleans the UDP and ICMP tables (repaired code)
+  udpExit : List Nat := []         -- exit-side UDP associations of this agent (udp.Handler.associations, bare stream id)
   deriving Repr
 
 def Agent.table (a : Agent) : Kind → Table
@@ -167,6 +168,24 @@ def Agent.relayClose (a : Agent) (k : Kind) (what : String) (peer id : Nat) : Op
   | (t, some (e, true)) => some (a.setTable k t, [⟨e.downPeer, what, e.downId, ""⟩])
   | (t, some (e, false)) => some (a.setTable k t, [⟨e.upPeer, what, e.upId, ""⟩])
   | (_, none) => none
+
+/-- `UDP_OPEN` with an empty path: the exit-side handler binds a socket and registers the association
+    under the bare stream id (synchronously), then acknowledges. -/
+def Agent.udpExitOpen (a : Agent) (peer id : Nat) : Agent × List Sent :=
+  ({ a with udpExit := id :: a.udpExit.filter (· != id) }, [⟨peer, "ack", id, ""⟩])
+
+/-- `handleUDPDatagram`: a stream id that names an exit-side association is consumed by the UDP
+    handler (no peer check); only otherwise the relay table is consulted. -/
+def Agent.udpData (a : Agent) (peer id : Nat) (payload : String := "") : Option (Agent × List Sent) :=
+  if a.udpExit.contains id then some (a, []) else a.relayData .udp peer id payload
+
+/-- `handleUDPClose`: the exit-side association under that id (if any) is removed AND the relay
+    table is asked (`PopMatchingPeer`) — both, always. -/
+def Agent.udpClose (a : Agent) (peer id : Nat) : Agent × List Sent :=
+  let a1 := { a with udpExit := a.udpExit.filter (· != id) }
+  match a1.relayClose .udp "close" peer id with
+  | some (a2, l) => (a2, l)
+  | none => (a1, [])
 
 /-- `handlePeerDisconnect` → `cleanupRelaysForPeer`; the peer leaves the peer manager. -/
 def Agent.disconnect (a : Agent) (p : Nat) : Agent :=
